@@ -101,7 +101,12 @@ def accessor_entries(db):
 def run(db, rep, tier):
     rep.rule("R4-escape-parse", "only malformed_packet can propagate out of a packet-parsing entry point", 70)
     rep.rule("R4-escape-access", "read-only accessors and option decoders raise only libtins exceptions", 500)
+    rep.rule("R2-bounds-parse", "every raw read/copy in the functions reachable from a parser entry point stays inside the "
+                                "buffer it is derived from (incl. union-arm and destination-capacity obligations)", 250)
+    rep.rule("R3-bounds-access", "the same for everything reachable from read-only accessors, option decoders and section getters "
+                                 "(incl. preconditions of internal helpers and class invariants they rely on)", 150)
     r4(db, rep)
+    r23(db, rep)
     rep.explanation = ("Exception-escape analysis over the resolved call graph (class-hierarchy expansion of virtual calls, "
                        "try/catch filtering by the exception hierarchy). Residues of path-insensitivity are discharged only "
                        "by checked facts (value bound of the argument), never by per-site suppression.")
@@ -137,3 +142,63 @@ def r4(db, rep):
             rep.ok("R4-escape-access", key, facts.loc(f), "escape set = %s" % sorted(es))
     rep.extra["discharged_residues"] = len(ex.discharged)
     rep.extra["discharge_samples"] = [dict(function=a, site=b, type=c, reason=d) for a, b, c, d in ex.discharged[:12]]
+
+
+# ---------------------------------------------------------------------------
+# R2/R3: raw-access bounds in everything the parsers and read-only accessors reach
+# ---------------------------------------------------------------------------
+def reachable(db, entries):
+    seen = {}
+    todo = [f["id"] for f in entries]
+    while todo:
+        fid = todo.pop()
+        if fid in seen:
+            continue
+        f = db.fn(fid)
+        if f is None:
+            continue
+        seen[fid] = f
+        for n in facts.fn_nodes(f):
+            c = n.get("callee")
+            if c and not n.get("ext"):
+                if c not in seen:
+                    todo.append(c)
+                if n.get("virt"):
+                    for o in db.all_overriders(c):
+                        if o not in seen:
+                            todo.append(o)
+    return seen
+
+
+SERIALIZE_NAMES = ("write_serialization", "serialize", "prepare_for_serialize", "send", "recv_response")
+
+
+def bounds_scope(db):
+    pe = parser_entries(db)
+    ae = [f for f in accessor_entries(db)]
+    rp = reachable(db, pe)
+    ra = reachable(db, ae)
+    out = {}
+    for fid, f in list(rp.items()) + list(ra.items()):
+        if f["name"] in SERIALIZE_NAMES or f.get("implicit"):
+            continue
+        if f["file"].startswith("src/crypto") or f["file"] in ("src/packet_sender.cpp", "src/network_interface.cpp"):
+            continue
+        out[fid] = f
+    return out, rp, ra
+
+
+def r23(db, rep):
+    from rules import _bounds
+    sc, rp, ra = bounds_scope(db)
+    # the option value type and the cursor class are part of every parser
+    for f in db.functions.values():
+        r = f.get("rec") or ""
+        if (r.startswith("Tins::PDUOption<") or r == "Tins::Memory::InputMemoryStream") and f.get("body") and not f.get("implicit"):
+            sc[f["id"]] = f
+    par = dict((fid, f) for fid, f in sc.items() if fid in rp)
+    acc = dict((fid, f) for fid, f in sc.items() if fid not in rp)
+    nf1, no1 = _bounds.run_functions(db, rep, "R2-bounds-parse", par.values())
+    nf2, no2 = _bounds.run_functions(db, rep, "R3-bounds-access", acc.values())
+    rep.extra["R2_functions"] = nf1
+    rep.extra["R3_functions"] = nf2
